@@ -287,7 +287,12 @@ fn stages(tier: Tier) -> Vec<Stage> {
         // both assertions range over lifecycle x mode x window; the relation and the second stance vary
         // innermost so that a time-capped run still covers every relation
         let lives = [Life::Active, Life::Retracted, Life::SupersededByDead];
-        let modes = [Mode::Stated, Mode::Inferred, Mode::Predicted, Mode::Hypothetical];
+        let modes = [
+            Mode::Stated,
+            Mode::Inferred,
+            Mode::Predicted,
+            Mode::Hypothetical,
+        ];
         let mut both = Vec::new();
         for l1 in lives {
             for m1 in modes {
@@ -356,9 +361,17 @@ fn main() {
     let mut completed = 0usize;
     let mut stage_log: Vec<serde_json::Value> = Vec::new();
     // development aid: `--stages <substring>` runs only the stages whose name contains it
-    let only: Option<String> = run.args.iter().position(|a| a == "--stages").and_then(|i| run.args.get(i + 1).cloned());
+    let only: Option<String> = run
+        .args
+        .iter()
+        .position(|a| a == "--stages")
+        .and_then(|i| run.args.get(i + 1).cloned());
     for stage in stages(run.tier) {
-        if only.as_ref().map(|o| !stage.name.contains(o.as_str())).unwrap_or(false) {
+        if only
+            .as_ref()
+            .map(|o| !stage.name.contains(o.as_str()))
+            .unwrap_or(false)
+        {
             run.cap_hit(&format!("stage filter: '{}' skipped", stage.name));
             continue;
         }
@@ -412,7 +425,10 @@ fn main() {
             run.add("interleaving_comparisons", o.order_comparisons);
             run.add("entry_point_checks", o.entry_point_checks);
             run.add("reprojection_checks", o.restab_checks);
-            run.add("note_other_value_ineligible_not_listed", o.other_value_unlisted);
+            run.add(
+                "note_other_value_ineligible_not_listed",
+                o.other_value_unlisted,
+            );
             run.add("nexus_instances", o.worlds);
             run.add("kml_transactions", o.statements);
             run.add("kql_queries", o.queries);
